@@ -305,12 +305,12 @@ class FrameSequence:
         The distance is set to 0 m.
         """
         time = sc.concat([time_min, time_max, time_max, time_min], dim='vertex').to(
-            unit='s'
+            unit='s', dtype='float64'
         )
         wavelength = sc.concat(
             [wavelength_min, wavelength_min, wavelength_max, wavelength_max],
             dim='vertex',
-        ).to(unit='angstrom')
+        ).to(unit='angstrom', dtype='float64')
         frames = [
             Frame(
                 distance=sc.scalar(0, unit='m'),
